@@ -165,7 +165,7 @@ fn seq_spec(ctx: &Ctx, shards: usize) -> SeqSpec {
         world: Default::default(),
         prefix: vec![],
         alphabet,
-        depth: if ctx.quick() { 4 } else { 5 },
+        depth: if ctx.quick() { 5 } else { 5 },
         allow: Some(Arc::new(|_h, present, a| match a {
             Op::Upsert { k, value: false, .. } => present.contains(k),
             _ => true,
